@@ -188,11 +188,12 @@ def spec_obs(sem, v):
     return dict(kex=k, certified=a in ("rsa", "dss", "ecdsa", "any"), ske=k not in ("rsa", "tls13"),
                 certKinds=kinds, cipher=sem["cipher"], keyLen=sem["keyLen"], mode=sem["mode"], ivLen=iv,
                 mac=sem["mac"], macLen=HASH_LEN.get(sem["mac"], 0), tagLen=sem["tagLen"], prf=prf,
+                prfKeyUpdate=sem["prf12"] if tls13 else None,
                 sessCipher=cname, sessMac=MAC_NAME[sem["mac"]], connCipher=conn)
 
 
 OBS_FIELDS = ["kex", "certified", "ske", "certKinds", "cipher", "keyLen", "mode", "ivLen", "mac", "macLen", "tagLen",
-              "prf", "sessCipher", "sessMac", "connCipher"]
+              "prf", "prfKeyUpdate", "sessCipher", "sessMac", "connCipher"]
 
 
 def obs_render(o):
@@ -315,6 +316,36 @@ def impl_prf_kind(v, s):
     return hit[0] if len(hit) == 1 else "unknown"
 
 
+def hkdf_expand_label(hname, secret, label, context, length):
+    """RFC 8446 §7.1 / RFC 5869 HKDF-Expand, from hashlib/hmac only"""
+    lab = b"tls13 " + label
+    info = bytes([length >> 8, length & 0xff, len(lab)]) + lab + bytes([len(context)]) + context
+    h = getattr(hashlib, hname)
+    out, t, i = b"", b"", 1
+    while len(out) < length:
+        t = pyhmac.new(bytes(secret), t + info + bytes([i]), h).digest()
+        out += t
+        i += 1
+    return out[:length]
+
+
+def impl_ku_kind(s):
+    """'<hash> <secret length>' that RecordLayer._calcTLS1_3KeyUpdate really uses for suite s, found by
+    comparing the secret it returns with reference HKDF-Expand-Label outputs; None if it raises"""
+    from tlslite.recordlayer import RecordLayer
+    sec = bytes(range(100, 148))
+    try:
+        new, _state = RecordLayer(None)._calcTLS1_3KeyUpdate(s, bytearray(sec))
+    except Exception:
+        return None
+    new = bytes(new)
+    for h in ("sha256", "sha384"):
+        for ln in (32, 48):
+            if new == hkdf_expand_label(h, sec, b"traffic upd", b"", ln):
+                return "%s %d" % (h, ln)
+    return "unknown %d" % len(new)
+
+
 FACTORY_ARGS = {"createAESGCM": 1, "createAESCCM": 1, "createAESCCM_8": 1, "createCHACHA20": 1, "createAES": 2,
                 "createRC4": 2, "createTripleDES": 2}
 
@@ -405,6 +436,7 @@ def impl_obs(s, v, st=None, kexinfo=None):
         o.update(kexinfo)
     o.update(certKinds=st["certKinds"], cipher=ciph, keyLen=kl, mode=mode, ivLen=12 if v >= (3, 4) else il,
              mac=dig, macLen=ml, tagLen=obj[4] if obj else 0, prf=impl_prf_kind(v, s),
+             prfKeyUpdate=(impl_ku_kind(s) or "?").split(" ")[0] if v >= (3, 4) else None,
              sessCipher=st["ccn"], sessMac=st["cmn"], connCipher=conn)
     return o
 
@@ -594,6 +626,9 @@ def static_part(ctx):
         B.add("cmn %d" % s, str(st["cmn"]), "canonicalMacName", case)
         pn, ps = TLSConnection._getPRFParams(s)
         B.add("prf %d" % s, "%s %d" % (pn, ps), "_getPRFParams", case)
+        ku = impl_ku_kind(s)
+        if ku is not None:
+            B.add("kuprf %d" % s, ku, "_calcTLS1_3KeyUpdate-hash", case)
         for v in VERSIONS[:4]:
             k = impl_prf_kind(v, s)
             fn = {"ssl3": "PRF_SSL", "md5sha1": "PRF", "sha256": "PRF_1_2", "sha384": "PRF_1_2_SHA384"}.get(k, k)
@@ -1122,12 +1157,112 @@ def live_one(ctx, s, v, name, sem, etm=False):
                         break
                     sizes[(side, n)] = (recs, got)
             obs["records"] = sizes
+            if v >= (3, 4):
+                obs["keyupdate"] = live_keyupdate(c, srv, a, b, rec)
             obs["etm"] = bool(c._recordLayer._writeState.encryptThenMAC), bool(srv._recordLayer._writeState.encryptThenMAC)
             obs["events"] = list(rec.events)
             obs["server_flight"] = flight_types(b.log)
             return "ok", obs
         except Exception as e:
             return "failed:%s:%s" % (exc_name(e), str(e)[:80]), None
+
+
+def live_keyupdate(c, srv, a, b, rec):
+    """one KeyUpdate in each direction (the client asks, the server answers with its own), then data
+    both ways; returns the secrets before/after on both ends and the two post-update records"""
+    from tlslite.constants import KeyUpdateMessageType
+    ku = {"before": {"client": (bytes(c.session.cl_app_secret), bytes(c.session.sr_app_secret)),
+                     "server": (bytes(srv.session.cl_app_secret), bytes(srv.session.sr_app_secret))}}
+    rec.side = "client"
+    for _ in c.send_keyupdate_request(KeyUpdateMessageType.update_requested):
+        pass
+    start_a = len(a.log)
+    for _ in c.writeAsync(bytearray(b"ping")):
+        pass
+    ku["c2s_record"] = bytes(a.log[start_a:])
+    rec.side = "server"
+    got = None
+    start_b = len(b.log)
+    for r in srv.readAsync(max=100, min=4):
+        if r in (0, 1):
+            if not a.buf:
+                break
+            continue
+        got = bytes(r)
+        break
+    ku["server_read"] = got
+    ku["s2c_keyupdate"] = app_records(b.log, start_b)
+    start_b = len(b.log)
+    for _ in srv.writeAsync(bytearray(b"pong")):
+        pass
+    ku["s2c_record"] = bytes(b.log[start_b:])
+    rec.side = "client"
+    got = None
+    for r in c.readAsync(max=100, min=4):
+        if r in (0, 1):
+            if not b.buf:
+                break
+            continue
+        got = bytes(r)
+        break
+    ku["client_read"] = got
+    ku["after"] = {"client": (bytes(c.session.cl_app_secret), bytes(c.session.sr_app_secret)),
+                   "server": (bytes(srv.session.cl_app_secret), bytes(srv.session.sr_app_secret))}
+    return ku
+
+
+def open_tls13_record(sem, secret, hname, record, seq=0):
+    """decrypt one TLS 1.3 record with keys derived independently from `secret` (HKDF-Expand-Label with
+    the hash the name denotes; RFC 8446 §5.2-5.3, §7.3); the AEAD primitive itself is tlslite's.
+    -> plaintext with the content type byte, or None"""
+    from tlslite.utils import cipherfactory
+    if len(record) < 5 or record[0] != 23:
+        return None
+    ln = (record[3] << 8) | record[4]
+    body = record[5:5 + ln]
+    key = hkdf_expand_label(hname, secret, b"key", b"", sem["keyLen"])
+    iv = hkdf_expand_label(hname, secret, b"iv", b"", 12)
+    nonce = bytes(x ^ y for x, y in zip(iv, bytes(4) + seq.to_bytes(8, "big")))
+    fac = {"gcm": "createAESGCM", "ccm": "createAESCCM", "ccm8": "createAESCCM_8", "poly1305": "createCHACHA20"}[sem["mode"]]
+    aead = getattr(cipherfactory, fac)(bytearray(key), ["python"])
+    pt = aead.open(bytearray(nonce), bytearray(body), bytearray(record[:5]))
+    return None if pt is None else bytes(pt)
+
+
+def check_keyupdate(ctx, s, v, name, sem, ku):
+    hname = sem["prf12"]
+    hl = HASH_LEN[hname]
+
+    def bad(field, impl, w, role="both"):
+        report(ctx, s, v, role, "live-keyupdate-" + field, impl, w, name, {"stage": "live"})
+    cl0, sr0 = ku["before"]["client"]
+    if ku["before"]["server"] != (cl0, sr0):
+        bad("secrets-before", "client and server sessions differ", "equal")
+    if (len(cl0), len(sr0)) != (hl, hl):
+        bad("traffic-secret-length", [len(cl0), len(sr0)], [hl, hl])
+    want = (hkdf_expand_label(hname, cl0, b"traffic upd", b"", hl), hkdf_expand_label(hname, sr0, b"traffic upd", b"", hl))
+    for side in ROLES:
+        got = ku["after"][side]
+        if (len(got[0]), len(got[1])) != (hl, hl):
+            bad("next-secret-length", [len(got[0]), len(got[1])], [hl, hl], side)
+        elif got != want:
+            bad("next-secret", [got[0].hex(), got[1].hex()],
+                "HKDF-Expand-Label(secret, 'traffic upd', '', %d) with %s: %s / %s" % (hl, hname, want[0].hex(), want[1].hex()), side)
+    if ku["server_read"] != b"ping" or ku["client_read"] != b"pong":
+        bad("delivery", [ku["server_read"], ku["client_read"]], ["ping", "pong"])
+    # the server answered the request with its own KeyUpdate (one handshake record under the old key)
+    if len(ku["s2c_keyupdate"]) != 1:
+        bad("reply", ku["s2c_keyupdate"], "one KeyUpdate record")
+    # the first record of the next generation, each direction, opens with independently derived keys
+    for label, record, secret, data in (("client-to-server", ku["c2s_record"], want[0], b"ping"),
+                                        ("server-to-client", ku["s2c_record"], want[1], b"pong")):
+        try:
+            pt = open_tls13_record(sem, secret, hname, record)
+        except Exception as e:
+            pt = "exception:" + exc_name(e)
+        if not isinstance(pt, bytes) or pt.rstrip(b"\x00") != data + b"\x17":
+            bad("post-update-record-" + label, pt if not isinstance(pt, bytes) else pt.hex(),
+                "opens to %r with key/iv from the %s next-generation secret" % (data, hname))
 
 
 def check_live(ctx, s, v, name, sem, obs):
@@ -1172,6 +1307,8 @@ def check_live(ctx, s, v, name, sem, obs):
         if side == "client" and ((o["serverCert"] is None) != (wantcert is None)
                                  or (wantcert and o["serverCert"] not in wantcert)):
             bad("server-certificate", o["serverCert"], wantcert, side)
+    if "keyupdate" in obs:
+        check_keyupdate(ctx, s, v, name, sem, obs["keyupdate"])
     ev = obs["events"]
     # key exchange classes per role
     if not sem["tls13"]:
@@ -1631,6 +1768,153 @@ def faulty_peer_part(ctx, neg):
     ctx.extra["faulty_peer"] = {"wall_s": round(time.time() - t0, 1), "client_guard_flagged": len(flagged)}
 
 
+# ----------------------------------------------------------------------------------------------
+# several server credentials (settings.virtual_hosts): the credential the server answers with must be of
+# the type the negotiated suite's name denotes
+# ----------------------------------------------------------------------------------------------
+
+CRED_FILES = {"rsa": ("serverX509Cert.pem", "serverX509Key.pem"), "ecdsa": ("serverECCert.pem", "serverECKey.pem"),
+              "dsa": ("serverDSACert.pem", "serverDSAKey.pem"), "ed25519": ("serverEd25519Cert.pem", "serverEd25519Key.pem"),
+              "rsa-pss": ("serverRSAPSSCert.pem", "serverRSAPSSKey.pem")}
+_RAW = {}
+
+
+def raw_cred(kind):
+    """(X509, key) or None"""
+    if kind not in _RAW:
+        from tlslite.x509 import X509
+        from tlslite.utils.keyfactory import parsePEMKey
+        from ..core import REPO
+        try:
+            d = os.path.join(REPO, "tests")
+            with open(os.path.join(d, CRED_FILES[kind][0])) as f:
+                x = X509()
+                x.parse(f.read())
+            with open(os.path.join(d, CRED_FILES[kind][1])) as f:
+                k = parsePEMKey(f.read(), private=True, implementations=["python"])
+            _RAW[kind] = (x, k)
+        except Exception:
+            _RAW[kind] = None
+    return _RAW[kind]
+
+
+# which signature schemes the client can verify
+CLIENT_SIGS = {
+    "any": {},
+    "ecdsa-only": {"rsaSigHashes": [], "rsaSchemes": [], "dsaSigHashes": [], "more_sig_schemes": []},
+    "rsa-only": {"ecdsaSigHashes": [], "dsaSigHashes": [], "more_sig_schemes": []},
+    "eddsa-only": {"rsaSigHashes": [], "rsaSchemes": [], "dsaSigHashes": [], "ecdsaSigHashes": [],
+                   "more_sig_schemes": ["Ed25519", "Ed448"]},
+    "dsa-only": {"rsaSigHashes": [], "rsaSchemes": [], "ecdsaSigHashes": [], "more_sig_schemes": []},
+}
+
+# certAlg of the presented certificate / signature algorithm of ServerKeyExchange -> the authentication
+# component of a suite name that covers it (EdDSA certificates go with the *_ECDSA_* suites, RFC 8422 §5.1.1... §2)
+AUTH_OF_CERTALG = {"rsa": "rsa", "rsa-pss": "rsa", "ecdsa": "ecdsa", "Ed25519": "ecdsa", "Ed448": "ecdsa", "dsa": "dss"}
+
+
+def auth_of_sigalg(sa):
+    if sa is None:
+        return None
+    h, g = sa
+    if h == 8:
+        return {4: "rsa", 5: "rsa", 6: "rsa", 9: "rsa", 10: "rsa", 11: "rsa", 7: "ecdsa", 8: "ecdsa"}.get(g, "?%d" % g)
+    return {1: "rsa", 2: "dss", 3: "ecdsa"}.get(g, "?%d" % g)
+
+
+def vhost_case(default, extra, sigs, v):
+    """server: default credential + one virtual-host key pair; client restricted to `sigs`.
+    -> ('ok', suite, certAlg presented, ServerKeyExchange (hash, sig)) | ('failed', why)"""
+    from tlslite.tlsconnection import TLSConnection
+    from tlslite.handshakesettings import VirtualHost, Keypair
+    from tlslite.x509certchain import X509CertChain
+    d, e = raw_cred(default), raw_cred(extra)
+    if d is None or e is None:
+        return ("skipped", "credentials")
+    cst = full_settings(v, v)
+    for k, val in CLIENT_SIGS[sigs].items():
+        setattr(cst, k, list(val))
+    sst = full_settings(v, v)
+    vh = VirtualHost()
+    vh.keys = [Keypair(e[1], [e[0]])]
+    sst.virtual_hosts = [vh]
+    a, b = Pipe(), Pipe()
+    c = TLSConnection(MemSock(b, a))
+    srv = TLSConnection(MemSock(a, b))
+    try:
+        gc = c.handshakeClientCert(settings=cst, async_=True)
+        gs = srv.handshakeServerAsync(certChain=X509CertChain([d[0]]), privateKey=d[1], settings=sst)
+        done = [False, False]
+        for _ in range(20000):
+            for i, g in enumerate((gc, gs)):
+                if not done[i]:
+                    try:
+                        next(g)
+                    except StopIteration:
+                        done[i] = True
+            if all(done):
+                break
+        else:
+            return ("failed", "no-progress")
+    except Exception as ex:
+        return ("failed", exc_name(ex))
+    if c.session.cipherSuite != srv.session.cipherSuite:
+        return ("failed", "suites differ")
+    chain = c.session.serverCertChain
+    return ("ok", c.session.cipherSuite, chain.x509List[0].certAlg if chain else None,
+            tuple(c.serverSigAlg) if getattr(c, "serverSigAlg", None) else None)
+
+
+def vhost_check(ctx, default, extra, sigs, v, res):
+    """oracle for one completed scenario; returns True if it violates the property"""
+    from tlslite.constants import CipherSuite as C
+    if res[0] != "ok":
+        return False
+    _, s, certalg, sigalg = res
+    name = C.ietfNames.get(s)
+    sem = parse_iana(name) if name else None
+    if sem is None or sem["tls13"] or sem["auth"] not in ("rsa", "ecdsa", "dss"):
+        return False
+    problems = []
+    if AUTH_OF_CERTALG.get(certalg) != sem["auth"]:
+        problems.append("certificate presented is %s" % certalg)
+    sa = auth_of_sigalg(sigalg)
+    if sa is not None and sem["kex"] != "rsa" and sa != sem["auth"]:
+        problems.append("ServerKeyExchange signed with %s (%s)" % (sa, list(sigalg)))
+    if problems:
+        ctx.violation("c20:vhost-auth-type-mismatch",
+                      "server with %s default credential and %s virtual-host key pair, client verifying %s signatures, %d.%d: "
+                      "negotiated 0x%04x %s (authentication %s) but %s"
+                      % (default, extra, sigs, v[0], v[1], s, name, sem["auth"], "; ".join(problems)),
+                      {"stage": "vhost", "parameter": "authentication-key-type", "default": default, "extra": extra,
+                       "client_sigs": sigs, "version": list(v), "suite": s, "name": name, "certAlg": certalg,
+                       "ske_sigalg": list(sigalg) if sigalg else None})
+        return True
+    return False
+
+
+def vhost_part(ctx):
+    kinds = ["rsa", "ecdsa", "ed25519", "dsa"] + (["rsa-pss"] if ctx.thorough() else [])
+    versions = [(3, 3)] + ([(3, 1), (3, 2)] if ctx.thorough() else [(3, 1)])
+    stats = {}
+    for v in versions:
+        for default in kinds:
+            for extra in kinds:
+                if extra == default:
+                    continue
+                for sigs in sorted(CLIENT_SIGS):
+                    if v < (3, 3) and sigs != "any":
+                        continue        # signature_algorithms exists from TLS 1.2 on
+                    res = vhost_case(default, extra, sigs, v)
+                    ctx.case(key=("vhost", default, extra, sigs, v),
+                             sample={"default": default, "extra": extra, "client_sigs": sigs, "version": list(v), "result": list(res)}
+                             if (default, extra, sigs) == ("rsa", "ecdsa", "ecdsa-only") else None)
+                    stats[res[0]] = stats.get(res[0], 0) + 1
+                    ctx.count("vhost:" + res[0])
+                    vhost_check(ctx, default, extra, sigs, v, res)
+    ctx.extra["vhost_scenarios"] = stats
+
+
 def run(ctx):
     ctx.rule = ("exhaustive: every identifier in ietfNames or any classification list (+8 unknown ids) x every mirrored function; "
                 "filterForVersion over all (min,max) pairs; filter_for_certificate over all certificate algorithms; every "
@@ -1639,13 +1923,16 @@ def run(ctx):
                 "Lean spec vs Python spec; live loopback handshake for every negotiable suite x version; faulty peers: every known suite id "
                 "put into a genuine ServerHello for every version x client kind/version span (client must reject what the version "
                 "does not define), a consistent misbehaving server run to completion, and every suite offered alone in a genuine "
-                "ClientHello of every version (server must not select what the version does not define); distinct = distinct (stream, suite, version, role, settings)")
+                "ClientHello of every version (server must not select what the version does not define); TLS 1.3: one KeyUpdate each way "
+                "with independently derived next-generation secrets/keys; servers with a default + a virtual-host credential "
+                "(RSA/ECDSA/Ed25519/DSA pairs) x client signature-algorithm restrictions; distinct = distinct (stream, suite, version, role, settings)")
     ctx.assumptions = ["the independent Python reading parse_iana/spec_obs in harness/props/c20.py states what a registered name denotes",
                        "pure-python cipher implementations (no m2crypto/pycrypto in this environment)",
                        "test credentials of /repo/tests (RSA, ECDSA P-256, DSA); SRP verifier generated on the fly"]
     neg, statics = static_part(ctx)
     live_part(ctx, neg, ctx.pick(45, 600))
     faulty_peer_part(ctx, neg)
+    vhost_part(ctx)
 
 
 def replay(ctx, rep):
@@ -1660,6 +1947,14 @@ def replay(ctx, rep):
         status, obs = live_one(ctx, s, v, name, parse_iana(name))
         print("live handshake 0x%04x %s in %d.%d: %s" % (s, name, v[0], v[1], status))
         return status != "ok"
+    if inp.get("stage") == "vhost":
+        v = tuple(inp["version"])
+        res = vhost_case(inp["default"], inp["extra"], inp["client_sigs"], v)
+        print("server default=%s vhost=%s, client sigs=%s, %s: %s" % (inp["default"], inp["extra"], inp["client_sigs"], v, res))
+        if res[0] == "ok":
+            print("  suite 0x%04x %s; certificate presented: %s; ServerKeyExchange signature: %s"
+                  % (res[1], C.ietfNames.get(res[1]), res[2], res[3]))
+        return vhost_check(ctx, inp["default"], inp["extra"], inp["client_sigs"], v, res)
     if inp.get("stage") == "kex-chain":
         role = inp["role"]
         name = C.ietfNames.get(s)
